@@ -45,9 +45,20 @@ pub fn run(prop: &str, a: &Args, rep: &mut Report) {
         _ => None,
     };
     let batch_n = 512usize;
-    let handle = |rep: &mut Report, batch: Vec<Pre>| match engine {
-        None => check_c01(rep, &batch),
-        Some(e) => check_compiled(rep, prop, &batch, e, if e == Engine::Jit { Family::Hostile } else { Family::Gentle }),
+    // every fourth full batch is also run by 8 threads at once, each on its own VMs (mon_par.rs)
+    let batches = std::cell::Cell::new(0u32);
+    let par_sessions = std::cell::Cell::new(0u32);
+    let max_par = if a.tier == "quick" { 3 } else { 40 };
+    let handle = |rep: &mut Report, batch: Vec<Pre>| {
+        batches.set(batches.get() + 1);
+        if batches.get() % 4 == 1 && batch.len() >= 128 && par_sessions.get() < max_par {
+            par_sessions.set(par_sessions.get() + 1);
+            crate::mon_par::exec_par(rep, prop, &batch, engine.unwrap_or(Engine::Interp));
+        }
+        match engine {
+            None => check_c01(rep, &batch),
+            Some(e) => check_compiled(rep, prop, &batch, e, if e == Engine::Jit { Family::Hostile } else { Family::Gentle }),
+        }
     };
 
     // ---- micro ----
